@@ -268,6 +268,10 @@ fn e1_plan(prop: P, tier: &Tier) -> Vec<PlanItem> {
             if prop == P::C05 || prop == P::C01 {
                 // soft requirements: accepted soft solvables are additional roots of the support
                 v.push(item(Box::new(Decorated::new_with("F5 soft skeletons", soft_skeletons(), f5k(q), false, &f5_filter)), two_axes(), if q { 1 } else { 2 }));
+                v.push(item(Box::new(F11), two_axes(), 1));
+            }
+            if prop == P::C02 {
+                v.push(item(Box::new(F11), two_axes(), 1));
             }
             if prop == P::C02 {
                 v.push(item(
@@ -306,6 +310,7 @@ fn e1_plan(prop: P, tier: &Tier) -> Vec<PlanItem> {
                     1,
                 ));
                 v.push(item(f4(tier), named(vec![("sync", sync_cfg())]), if q { 8 } else { 1 }));
+                v.push(item(Box::new(F11), two_axes(), 1));
             }
             if !q {
                 v.push(item(Box::new(Grid::f1_prime()), named(vec![("sync", sync_cfg())]), 1));
@@ -364,6 +369,7 @@ fn e1_plan(prop: P, tier: &Tier) -> Vec<PlanItem> {
                 two_axes(),
                 1,
             ),
+            item(Box::new(F11), two_axes(), 1),
         ],
     }
 }
@@ -676,7 +682,7 @@ pub fn replay(path: &str) -> i32 {
                 1
             }
         }
-        Some(k @ ("c06" | "c06-digest" | "c15" | "c16" | "c18" | "c19" | "c20" | "c20-solve" | "c20-async" | "c20-inflight")) => {
+        Some(k @ ("c06" | "c06-digest" | "c15" | "c16" | "c18" | "c19" | "c20" | "c20-solve" | "c20-async" | "c20-inflight" | "c20-guarded")) => {
             let f = |r: &Value| match k {
                 "c06" | "c06-digest" => crate::e6::replay(r),
                 "c15" => crate::e15::replay(r),
